@@ -304,7 +304,7 @@ func (c *Ctx) StoreIs(fn *ssa.Function, tf, glob string, min int, why string) {
 			c.Sites++
 			v := CanonD(s.Val, 9)
 			what := "value stored to " + tf + " originates from `" + glob + "`"
-			if Glob(glob, v) {
+			if globAny(glob, v) {
 				c.OK("K11", fnName, what, c.At(s), why)
 			} else {
 				c.Fail("K11", fnName, what, c.At(s), "stored value is `"+short(v, 200)+"` ("+why+")")
@@ -565,4 +565,13 @@ func (c *Ctx) FieldStoreIdx(fn *ssa.Function, valGlob, why string) {
 	}
 	c.Sites += n
 	c.Check(n > 0, "K11", fnName, "an element store of `"+valGlob+"` exists", site, why)
+}
+
+func globAny(globs, s string) bool {
+	for _, g := range strings.Split(globs, " OR ") {
+		if Glob(g, s) {
+			return true
+		}
+	}
+	return false
 }
